@@ -73,7 +73,7 @@ def _orders(seqs):
 
 
 def _outcome(run, k):
-    ma = run.ma(("LA;", "m%d" % k, "()V"))
+    ma = run.ma(run.gen(k))
     if ma is None:
         return None
     o = [("mr", C.ftrip(f), off) for _, f, off in ma.get_xref_read()] + [("mw", C.ftrip(f), off) for _, f, off in ma.get_xref_write()]
